@@ -44,7 +44,7 @@ def exc_matches(exc, name, ns):
     return False
 
 
-def snapshot_obj(o):
+def snapshot_obj(o, depth=0):
     c = Obj(o.cls, (o.name or '') + '@old')
     c.fields = dict(o.fields)
     for k, v in list(c.fields.items()):
@@ -52,6 +52,8 @@ def snapshot_obj(o):
             c.fields[k] = list(v)
         elif isinstance(v, dict):
             c.fields[k] = dict(v)
+        elif isinstance(v, Obj) and depth < 2:
+            c.fields[k] = snapshot_obj(v, depth + 1)
     return c
 
 
@@ -164,9 +166,9 @@ def run_path(interp, fi, contract, case, ci, script):
     for r in contract.get('requires', []) + case.get('requires', []):
         v = interp.eval_spec(r, fr0)
         interp.assume(ops.z3bool(v) if is_symbolic(v) else bool(v))
-    for l in contract.get('lemmas', []):
-        v = interp.eval_spec(l, fr0)
-        interp.assume(ops.z3bool(v) if is_symbolic(v) else bool(v))
+    interp.frames.append(fr0)
+    interp.assume_lemmas(contract.get('lemmas', []), fr0)
+    interp.frames.pop()
     raise_conds = []
     for (en, cond) in contract.get('raises', []):
         raise_conds.append((en, interp.eval_spec(cond, fr0), True))
@@ -198,9 +200,9 @@ def run_path(interp, fi, contract, case, ci, script):
                           note='returned normally, so the condition for %s must be false' % en)
     fr1 = Frame(fi, dict(env), spec=True)
     fr1.env['result'] = result
-    for l in contract.get('exit_lemmas', []):
-        v = interp.eval_spec(l, fr1)
-        interp.assume(ops.z3bool(v) if is_symbolic(v) else bool(v))
+    interp.frames.append(fr1)
+    interp.assume_lemmas(contract.get('exit_lemmas', []), fr1)
+    interp.frames.pop()
     for i, e in enumerate(contract.get('ensures', []) + case.get('ensures', [])):
         v = interp.eval_spec(e, fr1)
         interp.oblige('%s.post%d' % (key, i), v, 'post', line, note=e)
@@ -272,15 +274,22 @@ def check_frame(interp, fi, contract, selfobj, oldenv, exceptional):
     if exceptional:
         mods = set(contract.get('modifies_on_raise', contract.get('modifies', [])))
     old = oldenv['self']
-    for f in sorted(set(old.fields) | set(selfobj.fields)):
-        if f in mods:
-            continue
-        if f not in selfobj.fields or f not in old.fields:
-            g = False
-        else:
-            g = values_equal(old.fields[f], selfobj.fields[f])
-        interp.oblige('%s.frame.%s%s' % (fi.key, f, '.onraise' if exceptional else ''), g, 'frame', fi.node.lineno,
-                      note='field %s is not in the modifies clause and must be unchanged' % f)
+
+    def walk(oldo, newo, prefix):
+        for f in sorted(set(oldo.fields) | set(newo.fields)):
+            name = prefix + f
+            if name in mods:
+                continue
+            if f not in newo.fields or f not in oldo.fields:
+                g = False
+            elif isinstance(oldo.fields[f], Obj) and isinstance(newo.fields[f], Obj) and oldo.fields[f].cls is newo.fields[f].cls:
+                walk(oldo.fields[f], newo.fields[f], name + '.')
+                continue
+            else:
+                g = values_equal(oldo.fields[f], newo.fields[f])
+            interp.oblige('%s.frame.%s%s' % (fi.key, name, '.onraise' if exceptional else ''), g, 'frame', fi.node.lineno,
+                          note='field %s is not in the modifies clause and must be unchanged' % name)
+    walk(old, selfobj, '')
 
 
 # --------------------------------------------------------------------------- contract application at a call site
@@ -359,7 +368,10 @@ def apply_contract(interp, fi, c, args, kwargs, fr, node):
                     selfobj.fields[l.attr] = eval_rhs(interp, nd.comparators[0], cfr)
                     continue
             pending.append(e)
-        if not have_result and c.get('returns'):
+        if not have_result and callable(c.get('returns')):
+            result = c['returns'](interp, cfr.env)
+            cfr.env['result'] = result
+        elif not have_result and c.get('returns'):
             result = interp.fresh_typed(fi.qualname.split('.')[-1], c['returns'])
             cfr.env['result'] = result
         elif not have_result:
